@@ -78,9 +78,9 @@ type fact struct {
 }
 
 type memVersion struct {
-	val  ssa.Value              // the SSA value stored (nil = initial contents / phi)
-	phi  map[*ssa.BasicBlock]*memVersion
-	id   string
+	val ssa.Value // the SSA value stored (nil = initial contents / phi)
+	phi map[*ssa.BasicBlock]*memVersion
+	id  string
 }
 
 type bprover struct {
@@ -259,9 +259,54 @@ func (p *bprover) lenOf(v ssa.Value, at *ssa.BasicBlock) lin {
 			return p.lenOfMem(mv, at)
 		}
 	}
+	if key, ok := p.paramFieldKey(v); ok {
+		a := "len(" + key + ")"
+		p.axioms[a] = true
+		return atomLin(a)
+	}
 	a := "len(" + p.id(v) + ")"
 	p.axioms[a] = true
 	return atomLin(a)
+}
+
+// paramFieldKey: v is a load of a field path of a parameter (or of the local
+// copy a value parameter is spilled to) that is never stored to in this
+// function: all such loads denote the same value.
+func (p *bprover) paramFieldKey(v ssa.Value) (string, bool) {
+	root, chain := fieldChain(v)
+	if len(chain) == 0 {
+		return "", false
+	}
+	var par *ssa.Parameter
+	switch r := root.(type) {
+	case *ssa.Parameter:
+		par = r
+	case *ssa.Alloc:
+		if cv := cellValue(r); cv != nil {
+			par, _ = cv.(*ssa.Parameter)
+		}
+		// field stores into the copy would invalidate the identity
+		for _, ref := range *r.Referrers() {
+			if fa, ok := ref.(*ssa.FieldAddr); ok {
+				for _, r2 := range *fa.Referrers() {
+					if st, ok := r2.(*ssa.Store); ok && st.Addr == ssa.Value(fa) {
+						return "", false
+					}
+				}
+			}
+		}
+	}
+	if par == nil {
+		return "", false
+	}
+	if _, isPtr := par.Type().Underlying().(*types.Pointer); isPtr {
+		return "", false // the pointee may change
+	}
+	k := par.Name()
+	for _, f := range chain {
+		k += "." + f.Name()
+	}
+	return k, true
 }
 
 func (p *bprover) lenOfMem(mv *memVersion, at *ssa.BasicBlock) lin {
@@ -637,14 +682,30 @@ func (p *bprover) phiInvariants() {
 	// inductive lower bound 0 for integer phis: greatest fixpoint of the joint invariant
 	// "every candidate phi >= 0" (each incoming value is proven >= 0 assuming all candidates)
 	cand := map[*ssa.Phi]bool{}
+	lower := map[*ssa.Phi]int64{} // candidate invariant: phi >= lower (the least constant flowing in, at most 0)
 	for _, ph := range phis {
 		cand[ph] = true
+		lb := int64(0)
+		for _, e := range ph.Edges {
+			if k, ok := constInt(e); ok {
+				if _, isC := e.(*ssa.Const); isC && k < lb {
+					lb = k
+				}
+			}
+		}
+		if lb < -1 {
+			cand[ph] = false
+		}
+		lower[ph] = lb
 	}
+	inv := func(ph *ssa.Phi) lin { return atomLin(p.id(ph)).add(konst(-lower[ph])) }
 	for changed := true; changed; {
 		changed = false
 		var hyp []fact
-		for ph := range cand {
-			hyp = append(hyp, fact{atomLin(p.id(ph)), "induction hypothesis"})
+		for ph, ok := range cand {
+			if ok {
+				hyp = append(hyp, fact{inv(ph), "induction hypothesis"})
+			}
 		}
 		for _, ph := range phis {
 			if !cand[ph] {
@@ -653,8 +714,8 @@ func (p *bprover) phiInvariants() {
 			for i, e := range ph.Edges {
 				pred := ph.Block().Preds[i]
 				facts := append(p.edgeFacts(pred, ph.Block()), hyp...)
-				if !p.prove(p.val(e, pred), facts, 0) {
-					delete(cand, ph)
+				if !p.prove(p.val(e, pred).add(konst(-lower[ph])), facts, 0) {
+					cand[ph] = false
 					changed = true
 					break
 				}
@@ -663,7 +724,7 @@ func (p *bprover) phiInvariants() {
 	}
 	for _, ph := range phis {
 		if cand[ph] {
-			p.global = append(p.global, fact{atomLin(p.id(ph)), "phi >= 0 (inductive)"})
+			p.global = append(p.global, fact{inv(ph), "phi >= its least start value (inductive)"})
 		}
 	}
 }
@@ -696,6 +757,10 @@ func (p *bprover) proveAt(goalOf func(at *ssa.BasicBlock) lin, b *ssa.BasicBlock
 }
 
 func (p *bprover) obligations() []boundObl {
+	return p.obligationsFor(isByteSeq)
+}
+
+func (p *bprover) obligationsFor(isByteSeq func(types.Type) bool) []boundObl {
 	var out []boundObl
 	allInstrs(p.fn, func(in ssa.Instruction) {
 		b := in.Block()
